@@ -36,6 +36,10 @@ func relAllGates(w *sys.World) {
 		w.Step(sys.Stim{K: "point", T: "ms_cli"})
 		w.Step(sys.Stim{K: "point", T: "ms_srv"})
 	}
+	if hasPoint(w.Cfg, "manager.reader.dispatch") {
+		w.Step(sys.Stim{K: "point", T: "rd_cli"})
+		w.Step(sys.Stim{K: "point", T: "rd_srv"})
+	}
 }
 
 // freshStream ends what is there and opens a streaming RPC; it returns the rpc index (0 on failure).
